@@ -63,6 +63,11 @@ DOC_WORDS = ['the', 'quick', 'value', 'of', 'this', 'item', 'is', 'used', 'when'
              '😀', 'é']
 
 
+# text that is harmless in a spec but fragile inside generated string literals
+HOSTILE_DOC_WORDS = ['"""', "'''", '\\u12', '\\x4', '\\N{dash}', 'back\\slash', 'end\\', '*/', '/*',
+                     '${x}', '`tick`', '<b>', '@param', '"""quoted"""']
+
+
 def stable_seed(*parts):
     h = hashlib.sha256(repr(parts).encode()).digest()
     return int.from_bytes(h[:8], 'big')
@@ -347,6 +352,7 @@ DEFAULT_PROFILE = dict(
     route_docs_refs=True,
     p_anntype_foreign=0.3,
     max_omitted=3,
+    p_hostile_doc=0.0,
 )
 
 
@@ -403,6 +409,9 @@ class Gen:
                 ws.append(r.choice(DOC_WORDS[16:]))
             else:
                 ws.append(r.choice(DOC_WORDS[:16]))
+        if self.p.get('p_hostile_doc') and r.random() < self.p['p_hostile_doc']:
+            ws.insert(r.randint(0, len(ws)), r.choice(HOSTILE_DOC_WORDS))
+            self.m.feature('hostile_doc_text')
         if refs and r.random() < self.p['p_doc_ref']:
             ws.insert(r.randint(0, len(ws)), r.choice(refs))
         ws.append('d%d' % self._n())
@@ -641,7 +650,7 @@ class Gen:
                                   atype='Omitted', args=[c], kwargs={}))
         if r.random() < 0.6:
             ns.defs.append(AnnDef(name='Blot%d' % self._n(), ns=ns.name, atype='RedactedBlot',
-                                  args=r.choice([[], ['[a-c]+'], ['(x)y']]), kwargs={}))
+                                  args=r.choice([[], ['[a-c]+'], ['(x)y'], ["q'(x)"], ['(\\w)\\d']]), kwargs={}))
         if r.random() < 0.6:
             ns.defs.append(AnnDef(name='Hash%d' % self._n(), ns=ns.name, atype='RedactedHash',
                                   args=r.choice([[], [], ['\\d+']]), kwargs={}))
